@@ -591,88 +591,106 @@ def fixed_scenarios():
 # ------------------------------------------------------------------------------------------------
 # dedicated sweeps (direct oracle only)
 
-async def connect_cut_sweep(ctx, report):
-    """connect() itself: cut the link after every packet of the handshake"""
+CONNECT_ENDS = ('cut', 'reset', 'abort', 'close')
+
+
+async def connect_cut_sweep(ctx, report, only=None):
+    """connect() itself: after every packet of the handshake the connection ends in one of four ways - the
+    stream ends, the transport reports an error, the application (an SSHClient callback / a watchdog that got
+    the connection through connection_made) calls conn.abort(), or conn.close()"""
     import asyncssh
     k = 0
     done_all = False
-    while not done_all and k < 200 and getattr(report, 'budget', None) is not None and report.budget.hangs < MAX_HANGS:
-        loop = asyncio.get_running_loop()
-        tun = memwire.MemTunnel(loop)
-        wires = []
+    while not done_all and k < 200 and report.budget.hangs < MAX_HANGS:
+        for how in CONNECT_ENDS:
+            if only is not None and (k, how) != only:
+                continue
+            loop = asyncio.get_running_loop()
+            tun = memwire.MemTunnel(loop)
+            wires = []
 
-        def on_wire(w):
-            w.auto = False
-            wires.append(w)
-        tun.on_wire = on_wire
-        olog = []
+            def on_wire(w):
+                w.auto = False
+                wires.append(w)
+            tun.on_wire = on_wire
+            olog = []
+            conns = []
 
-        class Cli(asyncssh.SSHClient):
-            def connection_made(self, conn):
-                olog.append('made')
+            class Cli(asyncssh.SSHClient):
+                def connection_made(self, conn):
+                    olog.append('made')
+                    conns.append(conn)
 
-            def connection_lost(self, exc):
-                olog.append('lost1' if exc is not None else 'lost0')
+                def connection_lost(self, exc):
+                    olog.append('lost1' if exc is not None else 'lost0')
 
-        class Srv(asyncssh.SSHServer):
-            def begin_auth(self, username):
-                return False
-        before = set(asyncio.all_tasks())
-        acc = await asyncssh.listen('mem', 22, tunnel=tun, server_factory=Srv, server_host_keys=[sshutil.host_key()])
-        fut = simmod._spawn(asyncssh.connect('mem', 22, tunnel=tun, known_hosts=None, username='u',
-                                                     client_keys=None, config=None, client_factory=Cli))
-        for _ in range(5000):            # set-up only (connect() resolves its options in an executor thread)
-            if wires:
-                break
-            await asyncio.sleep(0.001)
-        if not wires:
-            raise RuntimeError('connect() never reached the tunnel')
-        await memwire.settle(6)
-        n = 0
-        w = wires[0] if wires else None
-        while w is not None and n < k and not fut.done():
-            moved = False
-            for side in 'cs':
-                if n < k and w.pending(side):
-                    w.deliver(side, 1)
-                    n += 1
-                    moved = True
+            class Srv(asyncssh.SSHServer):
+                def begin_auth(self, username):
+                    return False
+            before = set(asyncio.all_tasks())
+            acc = await asyncssh.listen('mem', 22, tunnel=tun, server_factory=Srv, server_host_keys=[sshutil.host_key()])
+            fut = simmod._spawn(asyncssh.connect('mem', 22, tunnel=tun, known_hosts=None, username='u',
+                                                 client_keys=None, config=None, client_factory=Cli))
+            for _ in range(5000):            # set-up only
+                if wires:
+                    break
+                await asyncio.sleep(0.001)
+            if not wires:
+                raise RuntimeError('connect() never reached the tunnel')
+            await memwire.settle(6)
+            n = 0
+            w = wires[0]
+            while n < k and not fut.done():
+                moved = False
+                for side in 'cs':
+                    if n < k and w.pending(side):
+                        w.deliver(side, 1)
+                        n += 1
+                        moved = True
+                        await memwire.settle(6)
+                if not moved:
+                    break
+            if fut.done():
+                done_all = True          # the handshake completed before the k-th packet: last position
+            if how == 'cut':
+                w.cut_link()
+            elif how == 'reset':
+                w.cut_link(ConnectionResetError('connection reset'))
+            elif conns and not fut.done():
+                (conns[0].abort if how == 'abort' else conns[0].close)()
+            else:
+                w.cut_link()
+            await memwire.settle(2 * simmod.SETTLE_TURNS)
+            ctx.count('connect.' + how, group='oracle')
+            ctx.count('connect.cut_positions', group='oracle')
+            ctx.note_case(('connect', k, how), nontrivial=True)
+            rp = {'kind': 'connect', 'k': k, 'how': how}
+            if not fut.done():
+                fut.cancel()
+                report(ctx, ('hang', f'connect() still pending {2 * simmod.SETTLE_TURNS} loop turns after the connection ended '
+                                    f'({how}) after {n} handshake packets'), rp)
+            else:
+                if not fut.cancelled() and fut.exception() is None:
+                    fut.result().abort()
                     await memwire.settle(6)
-            if not moved:
-                break
-        if fut.done():
-            done_all = True          # the handshake completed before the k-th packet: last position
-        if w is not None:
+                p = owner_log_problem(olog, True) if olog else None
+                if p:
+                    report(ctx, ('owner', f'connect ended ({how}) after {n} packets: {p}: {olog}'), rp)
             w.cut_link()
-        await memwire.settle(2 * simmod.SETTLE_TURNS)
-        ctx.count('connect.cut_positions', group='oracle')
-        ctx.note_case(('connect', k), nontrivial=True)
-        if not fut.done():
-            fut.cancel()
-            report(ctx, ('hang', f'connect() still pending {2 * simmod.SETTLE_TURNS} loop turns after the link was cut after '
-                                f'{n} handshake packets'), {'kind': 'connect', 'k': k})
-        else:
-            if not fut.cancelled() and fut.exception() is None:
-                conn = fut.result()
-                conn.abort()
-                await memwire.settle(6)
-            p = owner_log_problem(olog, True) if olog else None
-            if p:
-                report(ctx, ('owner', f'connect cut after {n} packets: {p}: {olog}'), {'kind': 'connect', 'k': k})
-        acc.close()
-        await memwire.settle(4)
-        lt = leftover_tasks(before)
-        if lt:
-            report(ctx, ('tasks', f'connect cut after {n} packets: {len(lt)} task(s) left: ' + repr(lt[0].get_coro())[:100]),
-                   {'kind': 'connect', 'k': k})
-            for t in lt:
-                t.cancel()
-            await memwire.settle(2)
+            acc.close()
+            await memwire.settle(6)
+            lt = leftover_tasks(before)
+            if lt:
+                report(ctx, ('tasks', f'connect ended ({how}) after {n} packets: {len(lt)} task(s) left: '
+                                      + repr(lt[0].get_coro())[:100]), rp)
+                for t in lt:
+                    t.cancel()
+                await memwire.settle(2)
         k += 1
     return k
 
 
-async def sftp_once(k, tmpdir):
+async def sftp_once(k, tmpdir, reset=False):
     """SFTP client over a manual wire, several requests in flight, link cut after k packet deliveries.
     returns (problems, reached_end)"""
     import asyncssh
@@ -719,7 +737,7 @@ async def sftp_once(k, tmpdir):
         await memwire.settle(8)
         await pump(lambda: all(f.done() for f in futs.values()))
     reached_end = all(f.done() for f in futs.values()) and n[0] < k
-    wire.cut_link()
+    wire.cut_link(ConnectionResetError('connection reset') if reset else None)
     await memwire.settle(3 * simmod.SETTLE_TURNS)
     if sftp is not None:
         futs['sftp.wait_closed'] = simmod._spawn(sftp.wait_closed())
@@ -729,7 +747,8 @@ async def sftp_once(k, tmpdir):
     for name, f in futs.items():
         if not f.done():
             f.cancel()
-            probs.append(('hang', f'SFTP {name} still pending after the link was cut after {n[0]} packets'))
+            probs.append(('hang', f'SFTP {name} still pending after the link was cut ({"reset" if reset else "stream end"}) '
+                                  f'after {n[0]} packets'))
     for side, c in (('c', wire.cconn), ('s', wire.sconn)):
         regs = getattr(c, '_channels', None)
         if regs:
@@ -760,11 +779,14 @@ async def sftp_cut_sweep(ctx, report, step):
             f.write(b'hello' * 50)
         k = 0
         while k < 600 and report.budget.hangs < MAX_HANGS:
-            probs, end = await sftp_once(k, d)
-            ctx.count('sftp.cut_positions', group='oracle')
-            ctx.note_case(('sftp', k), nontrivial=True)
-            for p in probs:
-                report(ctx, p, {'kind': 'sftp', 'k': k})
+            end = False
+            for reset in (False, True):
+                probs, e = await sftp_once(k, d, reset)
+                end = end or e
+                ctx.count('sftp.cut_positions', group='oracle')
+                ctx.note_case(('sftp', k, reset), nontrivial=True)
+                for p in probs:
+                    report(ctx, p, {'kind': 'sftp', 'k': k, 'reset': reset})
             if end:
                 break
             k += step
@@ -816,13 +838,17 @@ def make_report(budget):
     return report
 
 
-async def explore(ctx, name, ops, window, hw, cases, report, budget, corr=True):
+async def explore(ctx, name, ops, window, hw, cases, report, budget, corr=True, reset_every=3):
     """base run (+ handshake oracle), then the same ops cut at every settle point (+ post-mortem calls)"""
     ncli = sum(1 for o in ops if o[0] == 'open')
     variants = [('base', list(ops), True)]
+    nset = 0
     for i, o in enumerate(ops):
         if o == S:
             variants.append((f'cut@{i}', ops[:i + 1] + [['cut'], S] + postmortem_ops(ops, ncli), False))
+            nset += 1
+            if reset_every and nset % reset_every == 0:        # the same loss reported as a transport error
+                variants.append((f'reset@{i}', ops[:i + 1] + [['cut', 'reset'], S] + postmortem_ops(ops, ncli), False))
     for vname, vops, flush in variants:
         if budget.hangs >= MAX_HANGS:
             ctx.count('skipped_after_circuit_breaker', group='oracle')
@@ -855,7 +881,7 @@ async def main_async(ctx):
     thorough = ctx.tier == 'thorough'
     for name, ops in fixed_scenarios().items():
         for hw in ((32, 0) if thorough else (32,)):
-            await explore(ctx, f'fixed:{name}:hw{hw}', ops, 256, hw, cases, report, budget)
+            await explore(ctx, f'fixed:{name}:hw{hw}', ops, 256, hw, cases, report, budget, reset_every=(1 if thorough else 3))
     nscen = 260 if thorough else 22
     for k in range(nscen):
         if budget.hangs >= MAX_HANGS:
@@ -864,7 +890,7 @@ async def main_async(ctx):
         length = ctx.rng.randint(14, 34)
         sim, g, ops = await gen_scenario(ctx.rng, length, 256, hw)
         await sim.shutdown()
-        await explore(ctx, f'gen{k}', ops, 256, hw, cases, report, budget)
+        await explore(ctx, f'gen{k}', ops, 256, hw, cases, report, budget, reset_every=(1 if thorough else 4))
     ctx.log(f'{ctx.cov["oracle"].get("runs", 0)} runs, {len(cases)} endpoint traces; checking them against the model in Coq')
     # ---- correspondence: every endpoint trace against the model ------------------------------------
     seen = {}
@@ -885,7 +911,7 @@ async def main_async(ctx):
     # ---- dedicated sweeps --------------------------------------------------------------------------
     if budget.hangs < MAX_HANGS:
         n = await connect_cut_sweep(ctx, report)
-        ctx.log(f'connect(): link cut after each of the first {n} handshake packets')
+        ctx.log(f'connect(): ended (stream end / reset / conn.abort() / conn.close()) after each of the first {n} handshake packets')
     if budget.hangs < MAX_HANGS:
         n = await sftp_cut_sweep(ctx, report, 1 if thorough else 2)
         ctx.log(f'SFTP client: link cut at packet positions up to {n}')
@@ -953,7 +979,7 @@ def replay(rp):
                     pass
             out = []
             # re-run the sweep up to the recorded position
-            await connect_cut_sweep_replay(rp['k'], out)
+            await connect_cut_sweep_replay(rp, out)
             return out
         if kind == 'sftp':
             import tempfile
@@ -962,7 +988,7 @@ def replay(rp):
             d = tempfile.mkdtemp(prefix='c09sftp')
             try:
                 open(os.path.join(d, 'f.txt'), 'wb').write(b'hello' * 50)
-                probs, _ = await sftp_once(rp['k'], d)
+                probs, _ = await sftp_once(rp['k'], d, rp.get('reset', False))
                 return probs
             finally:
                 shutil.rmtree(d, ignore_errors=True)
@@ -976,7 +1002,7 @@ def replay(rp):
     return 1 if any(k == want or want is None for k, _ in probs) else 0
 
 
-async def connect_cut_sweep_replay(k, out):
+async def connect_cut_sweep_replay(rp, out):
     class Ctx0:
         def count(self, *a, **kw):
             pass
@@ -984,8 +1010,7 @@ async def connect_cut_sweep_replay(k, out):
         def note_case(self, *a, **kw):
             pass
 
-    def report(ctx, prob, rp):
-        if rp.get('k') == k:
-            out.append(prob)
+    def report(ctx, prob, r):
+        out.append(prob)
     report.budget = Budget()
-    await connect_cut_sweep(Ctx0(), report)
+    await connect_cut_sweep(Ctx0(), report, only=(rp['k'], rp.get('how', 'cut')))
